@@ -456,6 +456,11 @@ func applyFault(out []interface{}, ft *Fault) ([]interface{}, bool) {
 			out[pos] = map[string]interface{}{"data": nil, "errors": []interface{}{e1, e2}}
 			applied = true
 		}
+	case "errors-nocode", "errors-noext":
+		if m := el(); m != nil {
+			out[pos] = map[string]interface{}{"data": nil, "errors": []interface{}{ErrVariant(ft.Kind)}}
+			applied = true
+		}
 	case "datanull":
 		if m := el(); m != nil {
 			out[pos] = map[string]interface{}{"data": nil}
@@ -480,7 +485,7 @@ func applyFault(out []interface{}, ft *Fault) ([]interface{}, bool) {
 				applied = true
 			}
 		}
-	case "entry-scalar", "entry-null", "obj-scalar", "list-object", "no-id", "foreign-id", "field-null", "obj-list", "obj-empty-list", "list-null":
+	case "entry-scalar", "entry-null", "obj-scalar", "list-object", "no-id", "foreign-id", "field-null", "obj-list", "obj-list2", "obj-list3-null", "obj-empty-list", "list-null":
 		if m := el(); m != nil {
 			cp := gqlref.Norm(m["data"])
 			if shapeFault(cp, ft.Kind) {
@@ -522,6 +527,22 @@ func errPayload(i int) map[string]interface{} {
 		"path":       []interface{}{"node", float64(i), "f"},
 		"locations":  []interface{}{map[string]interface{}{"line": 1.0, "column": float64(i + 1)}},
 	}
+}
+
+// ErrVariant: downstream errors in the spellings services use - extensions without a `code`
+// (graphql-java style), no extensions / path / locations at all.
+func ErrVariant(kind string) map[string]interface{} {
+	switch kind {
+	case "errors-nocode":
+		return map[string]interface{}{
+			"message":    "Exception while fetching data (/f)",
+			"extensions": map[string]interface{}{"classification": "DataFetchingException", "retryable": true},
+			"path":       []interface{}{"node", "f"},
+		}
+	case "errors-noext":
+		return map[string]interface{}{"message": "plain failure"}
+	}
+	return errPayload(1)
 }
 
 // shapeFault rewrites the first place (depth-first, sorted keys) of a data tree where the
@@ -574,6 +595,15 @@ func shapeFault(v interface{}, kind string) bool {
 				}
 				if kind == "obj-list" && k != "node" {
 					x[k] = []interface{}{c}
+					return true
+				}
+				if kind == "obj-list2" && k != "node" {
+					// a list of two (copies of the) objects where the schema promises one object
+					x[k] = []interface{}{c, gqlref.Norm(c)}
+					return true
+				}
+				if kind == "obj-list3-null" && k != "node" {
+					x[k] = []interface{}{c, nil, gqlref.Norm(c)}
 					return true
 				}
 				if kind == "obj-empty-list" && k != "node" {
